@@ -17,8 +17,7 @@ Qed.
 Lemma udp_push_ports d b d' : udp_push d b = Ok d' ->
   uh_sport (ud_udp d') = uh_sport (ud_udp d) /\ uh_dport (ud_udp d') = uh_dport (ud_udp d).
 Proof.
-  unfold udp_push. destruct (cadd _ _ _ _); cbn [obind]; try discriminate.
-  destruct (cadd _ _ _ _); cbn [obind]; try discriminate. intros E. ok_inv E. split; reflexivity.
+  unfold udp_push. intros E. ok_inv E. split; reflexivity.
 Qed.
 
 Theorem vxlan_transparent f inner p :
@@ -36,11 +35,9 @@ Proof.
   destruct (udp_push_ports _ _ _ E1) as (S1 & D1). destruct (udp_push_ports _ _ _ E2) as (S2 & D2).
   destruct (udp_addressed_eth _ _ _ _ _ E1) as (B1 & _).
   assert (Eeth : ud_eth d2 = ud_eth d1).
-  { unfold udp_push in E2. destruct (cadd _ _ _ _); cbn [obind] in E2; try discriminate.
-    destruct (cadd _ _ _ _); cbn [obind] in E2; try discriminate. ok_inv E2. reflexivity. }
+  { unfold udp_push in E2. ok_inv E2. reflexivity. }
   assert (Eeth1 : eth_ser (ud_eth d1) = eth_for (fst (vx_cl f)) (fst (vx_sv f))).
-  { unfold udp_push in E1. destruct (cadd _ _ _ _); cbn [obind] in E1; try discriminate.
-    destruct (cadd _ _ _ _); cbn [obind] in E1; try discriminate. ok_inv E1. reflexivity. }
+  { unfold udp_push in E1. ok_inv E1. reflexivity. }
   exists (ud_ip d2), (ud_udp d2). split; [|split].
   - unfold udp_packet, pkt_of_body. cbn [pk_body]. rewrite udp_bytes_framed.
     rewrite R2, R1. cbn [ud_raw udp_dst udp_src udp_new ud_with_udp ud_with_ip ud_with_eth].
@@ -80,23 +77,22 @@ Lemma gre_new_fields src dst flags proto raw g :
   /\ gr_seq g = (if negb (N.land (gre_flags_word flags) 4096 =? 0) then Some 0 else None).
 Proof.
   unfold gre_new. destruct (negb _).
-  - destruct (cadd _ _ _ _); cbn [obind]; try discriminate. intros E. ok_inv E. repeat split.
+  - intros E. ok_inv E. repeat split.
   - intros E. ok_inv E. repeat split.
 Qed.
 Lemma gre_push_fields g b g' : gre_push g b = Ok g' ->
   gr_hdr g' = gr_hdr g /\ gr_seq g' = gr_seq g /\ gr_rest g' = gr_rest g ++ b.
-Proof. unfold gre_push. destruct (cadd _ _ _ _); cbn [obind]; try discriminate. intros E. ok_inv E. repeat split. Qed.
+Proof. unfold gre_push. intros E. ok_inv E. repeat split. Qed.
 
 Theorem gre_flow_transparent f b f' p :
   gl_flags f = gre_flags_default -> gl_ethertype f < 65536 ->
   gre_flow_encap f b = Ok (f', p) ->
   exists iph, pk_body p = framed (gl_raw f) (eth_for (gl_cl f) (gl_sv f)) (ip_ser iph ++ gre_ser 0 (gl_ethertype f) ++ b)
     /\ gre_decode (gre_ser 0 (gl_ethertype f) ++ b) = Some {| g_flags := 0; g_proto := gl_ethertype f; g_seq := None; g_payload := b |}
-    /\ gl_seq f' = gl_seq f + 1 /\ gl_flags f' = gl_flags f /\ gl_ethertype f' = gl_ethertype f.
+    /\ gl_seq f' = wrap32 (gl_seq f + 1) /\ gl_flags f' = gl_flags f /\ gl_ethertype f' = gl_ethertype f.
 Proof.
   intros Hfl Het. unfold gre_flow_encap. rewrite Hfl.
   destruct (gre_new _ _ _ _ _) as [g| | |] eqn:E0; cbn [obind]; try discriminate.
-  unfold cadd at 1. destruct (gl_seq f + 1 <? two32); cbn [obind]; try discriminate.
   destruct (gre_push _ b) as [g'| | |] eqn:E1; cbn [obind]; try discriminate.
   intros E. ok_inv E.
   destruct (gre_new_fields _ _ _ _ _ _ E0) as (H1 & H2 & H3).
@@ -145,10 +141,9 @@ Theorem erspan2_transparent f b ix f' p :
     /\ gre_decode (gre_ser 4096 ETH_ERSPAN_1_2 ++ be32 (e2_seq f) ++ erspan2_ser 0 ix ++ b)
        = Some {| g_flags := 4096; g_proto := 35006; g_seq := Some (e2_seq f); g_payload := erspan2_ser 0 ix ++ b |}
     /\ erspan2_decode (erspan2_ser 0 ix ++ b) = Some (1, ix mod 1048576, b)
-    /\ e2_seq f' = e2_seq f + 1 /\ e2_sess f' = e2_sess f.
+    /\ e2_seq f' = wrap32 (e2_seq f + 1) /\ e2_sess f' = e2_sess f.
 Proof.
   intros Hs Hq. unfold erspan2_encap. rewrite Hs.
-  unfold cadd at 1. destruct (e2_seq f + 1 <? two32); cbn [obind]; try discriminate.
   destruct (gre_new _ _ _ _ _) as [g| | |] eqn:E0; cbn [obind]; try discriminate.
   destruct (gre_push _ (erspan2_ser 0 ix)) as [g1| | |] eqn:E1; cbn [obind]; try discriminate.
   destruct (gre_push g1 b) as [g2| | |] eqn:E2; cbn [obind]; try discriminate.
@@ -168,9 +163,9 @@ Qed.
 
 (** sequences: one outer packet per inner packet, in order; ERSPAN II numbers them consecutively *)
 Lemma erspan2_encap_state f b ix f1 q : erspan2_encap f b ix = Ok (f1, q) ->
-  e2_seq f1 = e2_seq f + 1 /\ e2_sess f1 = e2_sess f /\ e2_cl f1 = e2_cl f /\ e2_sv f1 = e2_sv f /\ e2_raw f1 = e2_raw f.
+  e2_seq f1 = wrap32 (e2_seq f + 1) /\ e2_sess f1 = e2_sess f /\ e2_cl f1 = e2_cl f /\ e2_sv f1 = e2_sv f /\ e2_raw f1 = e2_raw f.
 Proof.
-  unfold erspan2_encap. unfold cadd at 1. destruct (e2_seq f + 1 <? two32); cbn [obind]; try discriminate.
+  unfold erspan2_encap.
   destruct (gre_new _ _ _ _ _); cbn [obind]; try discriminate.
   destruct (gre_push _ _); cbn [obind]; try discriminate.
   destruct (gre_push _ _); cbn [obind]; try discriminate. intros E. ok_inv E. repeat split.
@@ -178,18 +173,21 @@ Qed.
 
 Theorem erspan2_encap_all_counts ix ps : forall f f' qs,
   erspan2_encap_all f ix ps = Ok (f', qs) ->
-  length qs = length ps /\ e2_seq f' = e2_seq f + len ps /\ e2_sess f' = e2_sess f
+  e2_seq f < 4294967296 ->
+  length qs = length ps /\ e2_seq f' = (e2_seq f + len ps) mod 4294967296 /\ e2_sess f' = e2_sess f
   /\ e2_cl f' = e2_cl f /\ e2_sv f' = e2_sv f /\ e2_raw f' = e2_raw f.
 Proof.
   induction ps as [|k r IH]; intros f f' qs; cbn [erspan2_encap_all].
-  - intros E. ok_inv E. change (len (@nil packet)) with 0. repeat split; lia.
+  - intros E Hb. ok_inv E. change (len (@nil packet)) with 0. rewrite N.add_0_r, N.mod_small by lia. repeat split.
   - destruct (erspan2_encap f (pkt_frame k) ix) as [[f1 q]| | |] eqn:E1; cbn [obind]; try discriminate.
     destruct (erspan2_encap_all f1 ix r) as [[f2 qs2]| | |] eqn:E2; cbn [obind]; try discriminate.
-    intros E. ok_inv E. destruct (IH _ _ _ E2) as (Hl & Hs & Hss & Hc & Hv & Hr).
+    intros E Hb. ok_inv E.
     destruct (erspan2_encap_state _ _ _ _ _ E1) as (A1 & A2 & A3 & A4 & A5).
+    assert (Hb1 : e2_seq f1 < 4294967296) by (rewrite A1; unfold wrap32; lia).
+    destruct (IH _ _ _ E2 Hb1) as (Hl & Hs & Hss & Hc & Hv & Hr).
     clear E1 E2 IH.
     cbn [length]. rewrite len_cons.
-    split; [lia|]. split; [lia|]. split; [congruence|]. split; [congruence|]. split; congruence.
+    split; [lia|]. split; [rewrite Hs, A1; unfold wrap32; lia|]. split; [congruence|]. split; [congruence|]. split; congruence.
 Qed.
 
 Theorem omapM_length {A B} (g : A -> outcome B) l qs : omapM g l = Ok qs -> length qs = length l.
